@@ -77,13 +77,13 @@ pub fn runs_for(check: &str, tier: Tier) -> u64 {
         "C13" => if q { 6_000 } else { 150_000 },
         "C06" => if q { 160 } else { 6_000 },
         "C08" => if q { 96 } else { 3_000 },
-        "C03" => if q { 60_000 } else { 3_000_000 },
+        "C03" => if q { 100_000 } else { 5_000_000 },
         "C04" => if q { 40_000 } else { 2_000_000 },
         "C09" => if q { 12_000 } else { 600_000 },
         "C05" => if q { 1_600 } else { 80_000 },
-        "C14" => if q { 40_000 } else { 2_000_000 },
-        "C17" => if q { 30_000 } else { 1_500_000 },
-        "C18" => if q { 6_000 } else { 300_000 },
+        "C14" => if q { 60_000 } else { 3_000_000 },
+        "C17" => if q { 60_000 } else { 3_000_000 },
+        "C18" => if q { 60_000 } else { 3_000_000 },
         _ => 0,
     }
 }
